@@ -152,6 +152,7 @@ func (srv *Srv) flush(req *SrvReq) {
 		req.flushreq = r.flushreq
 		r.flushreq = req
 	}
+	verifPoint("@flush.lookup", req, r)
 	conn.Unlock()
 	verifPoint("flush.lookup", req, r)
 
@@ -167,6 +168,7 @@ func (srv *Srv) flush(req *SrvReq) {
 		/* the request is not worked on yet */
 		r.status |= reqFlush
 	}
+	verifPoint("@flush.mark", req, r, int(status))
 	r.Unlock()
 	verifPoint("flush.mark", req, r, int(status))
 
